@@ -205,6 +205,8 @@ def cli_work(arg):
 
 
 def run(rep, tier):
+    from .. import scale
+    scale.run(rep, PROP, tier)          # size ladders (seedverif/scale.py): the entries that concern this property
     rng = core.rng_for(PROP)
     jobs = []
     K = len(ALPHABET)
